@@ -195,6 +195,24 @@ type WireGen struct {
 	// CursorZero: iterations start at cursor 0 with a page that holds everything (complete listings
 	// can be compared as multisets even when row ids differ between two databases)
 	CursorZero bool
+	// curKeywords: the option keywords of the command being generated; now and then a positional
+	// value spells one of them (it must still be taken as a value)
+	curKeywords []string
+	// ForceKeyword: the next positional value (not a key) of the vector being generated spells one
+	// of the command's own option keywords
+	ForceKeyword bool
+}
+
+func collectKeywords(cs []*Comb, out *[]string) {
+	for _, c := range cs {
+		switch c.Name {
+		case "Flag", "Named":
+			*out = append(*out, c.Lit...)
+			collectKeywords(c.Sub, out)
+		case "OneOf":
+			collectKeywords(c.Sub, out)
+		}
+	}
 }
 
 // ResetKeySeq restarts the key sequence for the next vector.
@@ -248,6 +266,14 @@ func (g *WireGen) val(dst string) string {
 	}
 	if keyish(dst) {
 		return g.key()
+	}
+	if len(g.curKeywords) > 0 && (g.ForceKeyword || g.chance(0.08)) {
+		kw := g.curKeywords[g.pick(len(g.curKeywords))]
+		if g.ForceKeyword || g.chance(0.5) {
+			g.ForceKeyword = false
+			return kw // exactly as spelled in the source (stored elements may be named like that)
+		}
+		return g.randCase(kw)
 	}
 	switch strings.ToLower(dst) {
 	case "field", "fields":
@@ -405,6 +431,8 @@ func (g *WireGen) Vector(cg *CmdGrammar, malformed float64) []string {
 	}
 	out := []string{name}
 	nkeys := 1
+	g.curKeywords = nil
+	collectKeywords(cg.Combs, &g.curKeywords)
 	if cg.Combs != nil {
 		var opts [][]string
 		for _, c := range cg.Combs {
@@ -471,6 +499,8 @@ type OptChoice struct{ Comb, Alt int }
 func (g *WireGen) VectorOpts(cg *CmdGrammar, which []OptChoice) []string {
 	out := []string{cg.Name}
 	nkeys := 1
+	g.curKeywords = nil
+	collectKeywords(cg.Combs, &g.curKeywords)
 	for _, c := range cg.Combs {
 		if positional(c) {
 			out = append(out, g.genComb(c, 0, &nkeys)...)
